@@ -1,10 +1,56 @@
+"""C05 — UDP fragmentation is all-or-nothing and size-bounded."""
+import os
+import re
+
+from .. import common as C
+
+
+def _func_body(src, header):
+    """Text between the braces of the function whose header starts with `header`, comments
+    removed, whitespace collapsed."""
+    i = src.find(header)
+    if i < 0:
+        return "<missing: %s>" % header
+    j = src.index("{", i + len(header))
+    depth, k = 0, j
+    while True:
+        ch = src[k]
+        if ch == "{":
+            depth += 1
+        elif ch == "}":
+            depth -= 1
+            if depth == 0:
+                break
+        k += 1
+    body = re.sub(r"//[^\n]*", "", src[j + 1:k])
+    return " ".join(body.split())
+
+
+def gen_send_shape():
+    """The two udpIOImpl.SendMessage bodies (what sits between the send paths and quic.Conn.SendDatagram;
+    a real *quic.Conn cannot be faked, so the harness re-implements these few lines and this fact pins them)
+    -> lean/Hy/Gen/C05Shape.lean.  The caller holds the "lean" lock."""
+    def lean_str(t):
+        return '"' + t.replace("\\", "\\\\").replace('"', '\\"') + '"'
+    lines = ["/- REGENERATED from /repo/core/{client/client.go,server/server.go} on every run (tools/hv/props/C05.py). Do not edit. -/",
+             "namespace Hy.Gen.C05Shape"]
+    for name, rel in (("clientSendMessage", "core/client/client.go"), ("serverSendMessage", "core/server/server.go")):
+        src = open(os.path.join(C.REPO, rel)).read()
+        lines.append("def %s : String := %s" % (name, lean_str(_func_body(src, "func (io *udpIOImpl) SendMessage("))))
+    lines.append("end Hy.Gen.C05Shape")
+    C.write_gen_file("C05Shape", "\n".join(lines) + "\n")
+
+
 CFG = {
     "props_module": "Hy.Props.C05",
     "gen_modules": ["core"],
+    "gen_hooks": [gen_send_shape],
     "level": "proof",
     "streams": [
         # stateless: Serialize / ParseUDPMessage / FragUDPMessage
         {"mod": "core", "component": "frag", "driver": "frag", "n": {"quick": 10000, "thorough": 150000}},
+        # the real send paths (server receiveLoop -> sendMessageAutoFrag, client NewUDP -> udpConn.Send) over a scripted transport
+        {"mod": "core", "component": "autofrag", "driver": "frag", "n": {"quick": 8000, "thorough": 200000}},
         # stateful: the real Defragger driven by fragment histories of up to 6 concurrent messages
         {"mod": "core", "component": "defrag", "driver": "defrag", "reset_re": "^reset",
          "n": {"quick": 40000, "thorough": 1500000}},
@@ -18,6 +64,10 @@ CFG = {
             "1-2 payload bytes per fragment; k equal parts), Serialize into short/exact/long buffers, Serialize+Parse, and "
             "ParseUDPMessage on datagrams built from the field structure and damaged at field boundaries (truncation at every "
             "header offset, address length 0 / 2049.. / longer than the rest / equal to the rest, non-minimal varints, bit flips, random). "
+            "autofrag: both send paths, payload 1..300 / ..4096-hdr / around the 4096-byte buffer / oversize (client up to 65535), "
+            "address 1..2048, transport limit uniform 20..1500 / around the header size / at the 254..257-fragment boundary / 2..8 parts / "
+            "fits-whole+-1, honest transport (too-large iff longer than the limit) or one that refuses the whole datagram regardless, "
+            "SendDatagram failure at call 0/1/2/3/5/17/100/254/255, server logger refusal at call 0..3. "
             "defrag: histories = reset; 1..6 messages with distinct packet ids split by the real splitter (1, 2..6, 7..40, 254/255 "
             "fragments, >255 = discarded); fragments fed in one-message-any-order-with-duplicates, message-after-message, interleaved "
             "with drops and duplicates, or mixed with raw malformed/colliding fragments. defragx: exhaustive arrival orders. "
@@ -28,8 +78,12 @@ CFG = {
         "streams (frag: result list with per-fragment id/count/size/digest of the serialized bytes; defrag/defragx: returned message "
         "and the Defragger's pktID/len(frags)/count/size after every Feed) and by the regenerated constant MaxMessageLength",
         "quicvarint.Read/Len and binary.Read on a bytes.Buffer (modelled: any-width varint decode, short buffer = error)",
-        "callers (core/server/udp.go, core/client/udp.go sendMessageAutoFrag / udpConn.Send) fragment only a message with FragID 0, "
-        "FragCount 1 and pass int(MaxDatagramPayloadSize); each Defragger is fed by a single goroutine (not proved; read from the code)",
+        "the send paths (server receiveLoop -> sendMessageAutoFrag, client udpSessionManager.NewUDP -> udpConn.Send) are MODELLED "
+        "(Hy.Model.AutoFrag) and tied by the differential stream `autofrag`, which runs the real functions over a scripted "
+        "udpIO.SendMessage; the two udpIOImpl.SendMessage bodies (8 lines between the paths and quic.Conn.SendDatagram, a real "
+        "*quic.Conn cannot be faked) are re-implemented in the harness and pinned by the regenerated source fact Hy.Gen.C05Shape",
+        "math/rand.Intn(0xFFFF) returns a value in [0, 0xFFFF) (the draw is an input of the model, recovered from the first fragment); "
+        "each Defragger is fed, and each send path run, by a single goroutine (read from the code, not proved)",
         "quic-go hands every received datagram in a buffer it does not reuse (fragments alias it until reassembly)",
     ],
     "assumptions": [
@@ -49,7 +103,12 @@ MANIFEST = {
             "room or >255 fragments are needed; for EVERY arrival order with duplicates of a fragment set the defragger emits the "
             "original exactly once, at the step the last distinct fragment arrives; for EVERY finite sequence drawn from messages with "
             "distinct packet ids (drops, duplicates, permutations, interleaving) everything emitted is one of the originals; "
-            "Serialize/Parse round trip; parse/frag/feed never panic on any input or history. The pinned tree's uint8 count wrap "
+            "Serialize/Parse round trip; parse/frag/feed never panic on any input or history. The two send paths (whole attempt, "
+            "DatagramTooLargeError(L) -> packet id uint16(draw)+1 in 1..65535 -> split -> send in order, stop at the first error; Serialize into "
+            "the 4096-byte buffer with -1 = silent drop) are modelled with logger/transport/draw as inputs: everything handed to SendDatagram "
+            "after the whole attempt is <= L and is a prefix of one fragment set with a common non-zero id; a message over 4096 bytes or "
+            "needing >255 fragments is not sent at all; what leaves, parsed and fed in any order with duplicates to a fresh Defragger, yields "
+            "exactly the original; after a mid-set failure only a proper prefix has left and the receiver emits nothing. The pinned tree's uint8 count wrap "
             "(defect D1) is characterised exactly (panics iff >=256 fragments are needed) with decide-checked witnesses. The model is tied "
             "to the source by a differential on >50k cases (quick) incl. exhaustive arrival orders with one duplicate.",
     "note": "Trusted: Lean kernel (+leanchecker), axioms propext/Quot.sound/Classical.choice at most; the Go harness and hydrv driver; "
